@@ -290,11 +290,12 @@ class State:
                 self._trunc_of[id(hd)] = bool(hs.truncate)
             else:
                 ctx.count('probe.hdiscretization.reused')
+            flag_before = getattr(hd, 'truncate', None)
             A = ctx.call('HDiscretization.assemble_matrix', hd.assemble_matrix, symmetric=symflag)
             trunc = self._trunc_of[id(hd)]
             if A is not RAISED():
-                ctx.check(getattr(hd, 'truncate', trunc) == trunc, 'hdiscr-truncate-flag-not-restored',
-                          'HDiscretization.truncate is %r after assemble_matrix, was %r' % (getattr(hd, 'truncate', None), trunc), sig)
+                ctx.check(getattr(hd, 'truncate', None) == flag_before, 'hdiscr-truncate-flag-not-restored',
+                          'HDiscretization.truncate is %r after assemble_matrix, was %r before the call' % (getattr(hd, 'truncate', None), flag_before), sig)
         else:
             A = ctx.call('assemble(form, hspace)', assemble.assemble, make_form(name, dim), hs,
                          symmetric=symflag, **dict(args))
